@@ -231,6 +231,62 @@ def run(facts, res):
                           "update can return Ok without running its pass at line %s over the submitted document: the submission is acknowledged and "
                           "ignored, a following read() returns what was there before" % ub.blocks[a_].term.line, ub.loc(ub.blocks[o_].term.line))
 
+    # ------------------------------------------------------------------ U6 a vanished object is deleted unless its *winner* is a deletion
+    # `update` deletes the objects that left the document through delete_object; the deletion is recorded whenever the object's winning
+    # revision is neither a deletion nor a resolution marker. A guard that looks at the other leaves ("some leaf is already a deletion")
+    # leaves an object with a losing deleted leaf and a winning live leaf in the document although it was submitted without it.
+    from ..conds import unaccepted as _un6
+    from ..common import inlined_sites as _is6
+    res.rule("U6", "delete_object records the deletion under nothing but `the winner is neither a deletion nor a marker`")
+    dob = facts.body("melda::Melda::delete_object")
+    n6 = 0
+    if dob is not None:
+        for s_ in _is6(facts, dob, lambda t: t.callee is not None and t.callee.target() in ("revisiontree::RevisionTree::add", "revisiontree::RevisionTree::unvalidated_add")):
+            if not contains_call(s_.args[1] if len(s_.args) > 1 else ("cut",), "new_deleted"):
+                continue
+            n6 += 1
+
+            def ok6(l):
+                if l.kind == "variant":
+                    return True
+                if l.kind == "call" and callee_name(l.term) in ("is_deleted", "is_resolved") and l.truth is False and l.term[2]:
+                    return contains_call(l.term[2][0], "get_winner")
+                return False
+            extra = [repr(l) for l in _un6(s_.lits, ok6)]
+            res.instance("U6", "delete_object: the deletion is recorded unless the winner is a deletion / marker (other conditions: %s)" % (extra or "none"), s_.loc())
+            if extra:
+                res.violation("U6", "delete_object|deletion-skipped-under-extra-condition",
+                              "delete_object records the deletion only under the additional condition %s: an object whose winner is live can stay in the "
+                              "document although it was submitted without it" % extra[:2], s_.loc())
+    res.floor("U6", "deletion sites in delete_object", n6, 1)
+
+    # ------------------------------------------------------------------ U7 reserved digests are dispatched before the character-code test
+    # The digests of the deleted and the empty revision ("d", "e") are themselves valid character codes (hexadecimal, at most 8 digits):
+    # wherever DataStorage::read_object builds the value of a character object, the deleted / empty kinds whose digest is hexadecimal
+    # must have been excluded - otherwise an empty object reads back as {"#":"e"}.
+    res.rule("U7", "read_object answers the character-code kind only after the reserved kinds whose digest is a character code")
+    ro = facts.body("datastorage::DataStorage::read_object")
+    n7 = 0
+    if ro is not None:
+        import string as _string
+        kinds = {"is_deleted": facts.const_str("constants::DELETED_HASH"), "is_empty": facts.const_str("constants::EMPTY_HASH"),
+                 "is_resolved": facts.const_str("constants::RESOLVED_HASH")}
+        hexlike = sorted(k_ for k_, v_ in kinds.items() if v_ and len(v_) <= 8 and all(ch in _string.hexdigits for ch in v_))
+        from ..common import members_of as _mo7
+        for m_ in _mo7(facts, ro):
+            for ob_, st_ in assigns_of_return(m_, "Ok"):
+                ls_ = lits_of(m_, ob_, facts)
+                if not any(l.kind == "call" and callee_name(l.term) == "is_charcode" and l.truth is True for l in ls_):
+                    continue
+                n7 += 1
+                missing = [k_ for k_ in hexlike if not any(l.kind == "call" and callee_name(l.term) == k_ and l.truth is False for l in ls_)]
+                res.instance("U7", "read_object: the character-object value is built only after %s were excluded: %s" % (hexlike, not missing), m_.loc(st_.line))
+                if missing:
+                    res.violation("U7", "read_object|charcode-before-reserved-kind:%s" % ",".join(missing),
+                                  "DataStorage::read_object tests is_charcode before %s although the digest of that kind is itself a character code: "
+                                  "such a revision reads back as a character object" % missing, m_.loc(st_.line))
+    res.floor("U7", "character-object value sites in read_object", n7, 1)
+
     res.rule("U4", "object references are uniquely decodable: no accepted identifier carries a prefix the decoder dispatches on; generated identifiers are injective in the path")
     gi = facts.body("utils::generate_identifier")
     ufb = facts.body("utils::unflatten")
